@@ -362,6 +362,34 @@ func runHCScript(rng *Rng, respStream bool, nsteps int, fixed []string) *hcScrip
 	pendingSend := func() bool { return !eng.idle("cs") }
 	if fixed != nil {
 		for _, op := range fixed {
+			// a replayed script may name transport or env steps that are not enabled in this run (the body has already
+			// failed because the stream cancelled itself; the drain steps a replay shows at its end): skip those
+			if replied && bodyOpen && cs.Context().Err() != nil {
+				bodyOpen = false
+				if !sc.trailerOK {
+					sc.truncated = true
+				}
+			}
+			name := op
+			if i := strings.Index(op, ":"); i >= 0 {
+				name = op[:i]
+			}
+			switch {
+			case (name == "t.item" || name == "t.burst") && !(replied && bodyOpen && !trailerSupplied):
+				continue
+			case name == "t.end" && !(replied && bodyOpen):
+				continue
+			case (name == "t.reply" || name == "t.replystatus" || name == "t.replybad" || name == "t.fail") && rtAnswered:
+				continue
+			case strings.HasPrefix(name, "env.") && sc.cancelled:
+				continue
+			case strings.HasPrefix(name, "cr.") && !eng.idle("cr"), strings.HasPrefix(name, "cs.") && !eng.idle("cs"):
+				continue
+			case name == "t.readreq" && !(pendingSend() && eng.idle("t")):
+				continue
+			case name == "cr.header" && !rtAnswered:
+				continue
+			}
 			sc.steps = append(sc.steps, exec(op))
 		}
 	} else {
@@ -527,6 +555,17 @@ var hcRaceScripts = [][]string{
 
 func hcSuite(r *Run, prop string) {
 	rng := r.Rng.Fork("hc")
+	// HC.txt: "<respstream 0|1> <op;op;...>"
+	for _, f := range corpusLines("HC") {
+		if len(f) != 2 {
+			continue
+		}
+		sc := runHCScript(rng, f[0] == "1", 0, stripResults(f[1]))
+		r.Op(sc.line(), "observed")
+		r.TracesOnImpl++
+		r.Count("corpus:HC")
+		r.Eval(sc.line(), hcOracle(r, prop, sc))
+	}
 	if prop == "C02" || prop == "C05" || prop == "C08" {
 		for rep := 0; rep < r.Budget(40, 400); rep++ {
 			for _, fixed := range hcRaceScripts {
